@@ -8,6 +8,7 @@ __all__ = [
 ]
 
 import sys
+import unittest
 
 from testtools.testresult import ExtendedToOriginalDecorator
 
@@ -108,7 +109,7 @@ class RunTest:
             if self._exceptions:
                 # One or more caught exceptions, now trigger the test's
                 # reporting method for just one.
-                e = self._exceptions.pop()
+                e = self._exception_to_report()
                 for exc_class, handler in self.handlers:
                     if isinstance(e, exc_class):
                         handler(self.case, self.result, e)
@@ -119,6 +120,28 @@ class RunTest:
         finally:
             result.stopTest(self.case)
         return result
+
+    def _exception_to_report(self):
+        """Choose which of the caught exceptions reports the test.
+
+        The last exception caught wins, unless that would mask something
+        worse that was caught earlier: an exception that does not derive from
+        ``Exception`` (KeyboardInterrupt, SystemExit) always takes precedence,
+        because it has to be re-raised once the test has been reported, and a
+        skip or an expected failure raised by a later stage does not hide an
+        earlier failure or error.
+        """
+        # Circular import.
+        from testtools.testcase import _ExpectedFailure
+
+        for e in self._exceptions:
+            if not isinstance(e, Exception):
+                return e
+        benign = (getattr(self.case, "skipException", unittest.SkipTest), _ExpectedFailure)
+        for e in reversed(self._exceptions):
+            if not isinstance(e, benign):
+                return e
+        return self._exceptions[-1]
 
     def _run_core(self):
         """Run the user supplied test code."""
